@@ -483,13 +483,15 @@ func runC04(p *core.Prog, r *core.Report) {
 			}
 		}
 		// toClock maps id/number/timestamp field by field
-		tc := p.Func(pkgOExec, "toClock")
+		// (in toBlockScopedData or in a helper of its family, e.g. toClock)
 		okClock := false
-		for _, al := range core.AllocsOf(tc, p.Named(pkgPBV1, "Clock")) {
-			f := core.LiteralFields(al)
-			okClock = fieldFrom(f["Id"], "BlockId") && fieldFrom(f["Number"], "BlockNum") && fieldFrom(f["Timestamp"], "Timestamp")
+		for _, member := range core.Family(tb, 2) {
+			for _, al := range core.AllocsOf(member, p.Named(pkgPBV1, "Clock")) {
+				f := core.LiteralFields(al)
+				okClock = fieldFrom(f["Id"], "BlockId") && fieldFrom(f["Number"], "BlockNum") && fieldFrom(f["Timestamp"], "Timestamp")
+			}
 		}
-		r.Check(okClock, "C04.R5", "toClock", "an item's clock is (BlockId, BlockNum, Timestamp) of the item", "field mapping differs", p.Pos(tc.Pos()))
+		r.Check(okClock, "C04.R5", "toClock", "an item's clock is (BlockId, BlockNum, Timestamp) of the item", "field mapping differs", p.Pos(tb.Pos()))
 	})
 
 	// ------------------------------------------------------------------ R6
